@@ -23,8 +23,8 @@ RULE = ("case = (declaration, context); expected entity keys known by constructi
         "non-trivial = every case; distinct by rendered DDL")
 ASSUMPTIONS = ["extra keys in an entity are tolerated; the named keys must match exactly"]
 
-NAMES = ["mood", "Mood", '"Dq"', "ARRAY_T", "my_ARRAY", "schema", "key", "type", "database", "index", "comment", "domain"]
-KWNAMES = NAMES[5:]  # entity names that coincide with grammar keywords (not used as a column TYPE: the statement does not cover that)
+NAMES = ["mood", "Mood", '"Dq"', "`Bt`", "[Br]", "ARRAY_T", "my_ARRAY", "schema", "key", "type", "database", "index", "comment", "domain"]
+KWNAMES = NAMES[7:]  # entity names that coincide with grammar keywords (not used as a column TYPE: the statement does not cover that)
 SCH = [None, "s1", '"S2"']
 
 
@@ -205,6 +205,8 @@ def features(case):
         f.append("domain:unsized-base-type")
     if d.get("ine_auth"):
         f.append("schema:if-not-exists+authorization")
+    if d["kind"] == "schema" and "`" in d["ddl"]:
+        f.append("schema:backtick-name")
     return f
 
 
@@ -267,12 +269,19 @@ def evaluate(case):
     e = res[idx]
     exp = norm(d["exp"])
     bad = {k: [v, e.get(k, "<absent>")] for k, v in exp.items() if e.get(k, "<absent>") != v}
-    if bad:
+    if bad and d["kind"] == "schema":
+        # judged key by key (two independent known findings can meet in one statement)
+        for k, v in bad.items():
+            sym = "entity-differs"
+            if k == "authorization" and "AUTHORIZATION" in e:
+                sym = "authorization-key-upper-case"
+            if k == "schema_name" and isinstance(v[1], str) and "`" in v[0] and v[1] == v[0].replace("`", ""):
+                sym = "schema-name-backticks-stripped"
+            diffs.append(diff("schema entity", sym, {k: v[0]}, {k: v[1]}))
+    elif bad:
         sym = "entity-differs"
         if set(bad) <= {"domain_name", "schema"} and d["kind"] == "domain":
             sym = "domain-name-wrong"
-        if set(bad) == {"authorization"} and "AUTHORIZATION" in e:
-            sym = "authorization-key-upper-case"
         diffs.append(diff(d["kind"] + " entity", sym, {k: v[0] for k, v in bad.items()}, {k: v[1] for k, v in bad.items()}))
     if d.get("tbody"):
         ref = run_ddl("CREATE TABLE zz_ref (%s);" % d["tbody"])
